@@ -106,6 +106,11 @@ pub struct WriteSpec {
     /// as up to n slices
     #[serde(default)]
     pub vectored: u16,
+    /// async only: the write of this chunk is polled once and its future dropped (a timeout
+    /// would do that); the same chunk is then written again from its start, which the library
+    /// treats as the continuation of the cancelled write
+    #[serde(default)]
+    pub cancel_chunk: Option<u8>,
 }
 
 impl WriteSpec {
@@ -125,6 +130,7 @@ impl WriteSpec {
             pause_ms: 0,
             interfere: Interfere::None,
             vectored: 0,
+            cancel_chunk: None,
         }
     }
     pub fn streamed(&self) -> bool {
@@ -149,6 +155,11 @@ pub enum Dest {
     Existing,
     /// an absent path on a different filesystem than the cache (hard links cannot cross it)
     OtherFs,
+    /// an absent path whose file name is 255 bytes long (the longest legal name)
+    LongName,
+    /// an absent path next to files named `<dest>.tmp`, `<dest>.partial`, `<dest>~` and
+    /// `.<dest>.swp`, which belong to somebody else and must stay as they are
+    WithSiblings,
 }
 
 /// Where a writer is abandoned (C14).
